@@ -169,7 +169,9 @@ func genC19(r *Rng, n int, tier string, emit func(Case)) {
 			}
 		}
 		// CORS
-		origins := []string{"http://a.test", "http://b.test", "http://evil.test", "http://a.test!http://b.test", "", "*", "http://a.test/", "a.test", "http://a.tes", "!", "null"}
+		origins := []string{"http://a.test", "http://b.test", "http://evil.test", "http://a.test!http://b.test", "", "*", "http://a.test/", "a.test", "http://a.tes", "!", "null",
+			// case and Unicode-fold variants of members, longer strings with a member as prefix, and the request's own host
+			"HTTP://A.TEST", "http://A.test", "http://a.teſt", "http://a.test.evil.example", "http://a.test:8080", "http://example.test", "https://example.test", "http://EXAMPLE.test"}
 		var origin interface{}
 		if rr.Chance(4, 5) {
 			origin = origins[rr.Intn(len(origins))]
